@@ -554,7 +554,15 @@ func main() {
 		exit = 1
 	}
 	if len(infra) > 0 || len(vacuity) > 0 {
+		seenMsg := map[string]bool{}
 		for _, m := range infra {
+			if len(m) > 1500 {
+				m = m[:1500] + " …"
+			}
+			if seenMsg[m] {
+				continue
+			}
+			seenMsg[m] = true
 			fmt.Printf("INFRA-ERROR %s\n", m)
 		}
 		for _, m := range vacuity {
